@@ -184,6 +184,7 @@ bool small_for_arith(const B &b)
 }
 
 bool nonfinite_double_inside(const B &b);
+size_t diff_nodes(const B &b);
 bool tree_canonical(const B &b, int depth);
 void stored_children(const Basic &b, vec_basic &out);
 bool too_big(const B &b, size_t cap);
@@ -417,9 +418,13 @@ B build(FuzzedDataProvider &fdp)
                     r = K[fdp.ConsumeIntegralInRange<size_t>(0, 4)];
                     break;
                 }
-                case 25: // Derivative / Subs through differentiation of an undefined function
-                    r = function_symbol("g", {pick(), pick()})->diff(symbol(fdp.ConsumeBool() ? "x" : "y"));
+                case 25: { // Derivative / Subs through differentiation of an undefined function (first order only:
+                           // derivatives of Subs/Derivative towers take minutes in DiffVisitor::bvisit(Subs))
+                    B a = pick(), b = pick();
+                    if (diff_nodes(a) + diff_nodes(b) == 0)
+                        r = function_symbol("g", {a, b})->diff(symbol(fdp.ConsumeBool() ? "x" : "y"));
                     break;
+                }
                 case 26: {
                     multiset_basic ms;
                     ms.insert(symbol("x"));
@@ -623,6 +628,16 @@ bool nonfinite_double_inside(const B &b)
             return true;
     return false;
 }
+size_t diff_nodes(const B &b)
+{
+    size_t n = (is_a<Derivative>(*b) || is_a<Subs>(*b)) ? 1 : 0;
+    for (auto &a : b->get_args()) {
+        n += diff_nodes(a);
+        if (n > 8)
+            break;
+    }
+    return n;
+}
 bool has_rounding_node(const B &b)
 {
     if (is_a<Floor>(*b) || is_a<Ceiling>(*b) || is_a<Truncate>(*b) || is_a<PrimePi>(*b) || is_a<Primorial>(*b))
@@ -721,7 +736,7 @@ void exercise(const B &b, fz::Stats &st)
     for (auto &s : syms) {
         if (k++ >= 3)
             break;
-        if (is_a_sub<Symbol>(*s)) {
+        if (is_a_sub<Symbol>(*s) && diff_nodes(b) <= 2) {
             try {
                 B d = b->diff(rcp_static_cast<const Symbol>(s));
                 (void)d->__str__();
